@@ -71,7 +71,7 @@ def membershipOf (e : Event) : Option Bytes :=
     | none => none
     | some .null => some []
     | some (.obj kvs) =>
-      let d := decString (lookupField kvs b!"membership")
+      let d := decString (lookupExact kvs b!"membership")
       if d.err then none else some d.val
     | some _ => none
   match m with
